@@ -564,7 +564,36 @@ def hstack(blocks, format=None, dtype=None):
     return ShimCSR(A, S, "csr")
 
 
+def diags(diagonals, offsets=0, shape=None, format=None, dtype=None):
+    d = np.asarray(diagonals)
+    if d.ndim != 1 or offsets != 0:
+        raise Unsupported("scipy.sparse.diags beyond a single main diagonal")
+    n = d.size
+    obj = d.dtype == object
+    A = _zeros((n, n), obj)
+    S = np.zeros((n, n), dtype=bool)
+    for i in range(n):
+        A[i, i] = d[i]
+        S[i, i] = True
+    return ShimCSR(A, S, "csr")
+
+
+def eye(m, n=None, k=0, dtype=None, format=None):
+    n = m if n is None else n
+    if k != 0:
+        raise Unsupported("scipy.sparse.eye with an offset")
+    A = np.eye(m, n)
+    return ShimCSR(A, A != 0, "csr")
+
+
+def identity(n, dtype=None, format=None):
+    return eye(n)
+
+
 class SpShim:
+    diags = staticmethod(diags)
+    eye = staticmethod(eye)
+    identity = staticmethod(identity)
     """Stands in for `scipy.sparse` inside rsome modules (verifier process only)."""
     csr_matrix = staticmethod(csr_matrix)
     csc_matrix = staticmethod(csc_matrix)
